@@ -145,7 +145,9 @@ func (lm *lexSSAModel) readCharSummary() *readCharSum {
 		return s
 	}
 	recv := ssa.Value(fn.Params[0])
-	paths, ok := walkPaths(fn, nil, func(caller, callee *ssa.Function) bool { return pkgOf(callee) == fn.Pkg && !funcHasLoop(callee) })
+	rcw := &pathWalker{splitMinMax: true, inline: func(caller, callee *ssa.Function) bool { return pkgOf(callee) == fn.Pkg && !funcHasLoop(callee) }}
+	rcw.walk(fn)
+	paths, ok := rcw.paths, !rcw.overflow
 	if !ok || len(paths) == 0 {
 		s.why = "paths of readChar cannot be enumerated"
 		return s
@@ -192,28 +194,144 @@ func (lm *lexSSAModel) readCharSummary() *readCharSum {
 	}
 	s.nulAtEnd, s.pinned, s.indexedOK, s.advances, s.lineOnLF = true, true, true, true, true
 	nEnd, nIn := 0, 0
+	const inf = int64(1) << 40
+	// rangeOf: the interval of d = ahead - len(input) implied by the first n decisions of the path
+	// (ahead: the value of the ahead cursor on entry); feasible = false when they contradict each other
+	rangeOf := func(p *pwPath, n int) (lo, hi int64, feasible bool) {
+		at := atom(p)
+		lo, hi = -inf, inf
+		for _, d := range p.decisions[:n] {
+			bo, ok := d.cond.(*ssa.BinOp)
+			if !ok {
+				continue
+			}
+			a, b := linOf(p, bo.X, at, 0), linOf(p, bo.Y, at, 0)
+			if !a.ok || !b.ok {
+				continue
+			}
+			op := bo.Op
+			if !d.truth {
+				switch op {
+				case token.LSS:
+					op = token.GEQ
+				case token.LEQ:
+					op = token.GTR
+				case token.GTR:
+					op = token.LEQ
+				case token.GEQ:
+					op = token.LSS
+				case token.EQL:
+					op = token.NEQ
+				case token.NEQ:
+					op = token.EQL
+				default:
+					continue
+				}
+			}
+			if a.atom == "len" && b.atom == "ahead" {
+				a, b = b, a
+				switch op {
+				case token.LSS:
+					op = token.GTR
+				case token.LEQ:
+					op = token.GEQ
+				case token.GTR:
+					op = token.LSS
+				case token.GEQ:
+					op = token.LEQ
+				}
+			}
+			switch {
+			case a.atom == b.atom:
+				// the same quantity on both sides: a comparison of constants
+				holds, known := false, true
+				switch op {
+				case token.LSS:
+					holds = a.c < b.c
+				case token.LEQ:
+					holds = a.c <= b.c
+				case token.GTR:
+					holds = a.c > b.c
+				case token.GEQ:
+					holds = a.c >= b.c
+				case token.EQL:
+					holds = a.c == b.c
+				case token.NEQ:
+					holds = a.c != b.c
+				default:
+					known = false
+				}
+				if known && !holds {
+					return lo, hi, false
+				}
+			case a.atom == "ahead" && b.atom == "len":
+				k := b.c - a.c // d op k
+				switch op {
+				case token.LSS:
+					if k-1 < hi {
+						hi = k - 1
+					}
+				case token.LEQ:
+					if k < hi {
+						hi = k
+					}
+				case token.GTR:
+					if k+1 > lo {
+						lo = k + 1
+					}
+				case token.GEQ:
+					if k > lo {
+						lo = k
+					}
+				case token.EQL:
+					if k < hi {
+						hi = k
+					}
+					if k > lo {
+						lo = k
+					}
+				}
+			}
+		}
+		return lo, hi, lo <= hi
+	}
+	// offsetOf: the range of v - len(input) under the interval [lo, hi] of ahead - len(input)
+	offsetOf := func(p *pwPath, v ssa.Value, lo, hi int64) (omin, omax int64, ok bool) {
+		l := linOf(p, v, atom(p), 0)
+		switch {
+		case !l.ok:
+			return 0, 0, false
+		case l.atom == "len":
+			return l.c, l.c, true
+		case l.atom == "ahead":
+			return lo + l.c, hi + l.c, true
+		}
+		return 0, 0, false
+	}
 	for _, p := range paths {
 		if p.end != "return" {
 			continue
 		}
 		at := atom(p)
+		lo, hi, feasible := rangeOf(p, len(p.decisions))
+		if !feasible {
+			continue
+		}
 		inRange, known := false, false
-		knownAt := -1
-		for di, d := range p.decisions {
-			if bo, ok := d.cond.(*ssa.BinOp); ok {
-				if t, ok := ltTruth(bo.Op, linOf(p, bo.X, at, 0), linOf(p, bo.Y, at, 0), d.truth, "ahead", "len"); ok && !known {
-					inRange, known, knownAt = t, true, di
-				}
-			}
+		switch {
+		case hi <= -1:
+			inRange, known = true, true
+		case lo >= 0:
+			inRange, known = false, true
 		}
 		var lookups []ssa.Value
 		for ei, ev := range p.events {
 			if lkX, lkIndex, ok := stringIndexOp(ev); ok && lm.isFieldLoad(p, p.resolve(lkX), lm.inputIdx) {
 				lookups = append(lookups, ev.(ssa.Value))
-				if !known || !inRange || p.evDecided[ei] <= knownAt {
-					s.indexedOK = false
-				}
-				if l := linOf(p, lkIndex, at, 0); !(l.ok && l.atom == "ahead" && l.c == 0) {
+				// what is known when the byte is read: the index lies at or after the cursor and before the end
+				_, ehi, ok := rangeOf(p, p.evDecided[ei])
+				l := linOf(p, lkIndex, at, 0)
+				if !ok || !l.ok || l.atom != "ahead" || l.c < 0 || ehi+l.c > -1 {
 					s.indexedOK = false
 				}
 			}
@@ -231,14 +349,15 @@ func (lm *lexSSAModel) readCharSummary() *readCharSum {
 				s.nulAtEnd = false
 			}
 			if s.posIdx >= 0 {
-				if v, ok := field(s.posIdx); !ok || !isLenInput(p, v) {
+				if v, ok := field(s.posIdx); !ok {
+					s.pinned = false
+				} else if omin, omax, ok := offsetOf(p, v, lo, hi); !ok || omin != 0 || omax != 0 {
 					s.pinned = false
 				}
 			}
 			if v, ok := field(s.aheadIdx); ok {
 				// the ahead cursor must stay at or behind the end
-				l := linOf(p, v, at, 0)
-				if !(l.ok && ((l.atom == "len" && l.c >= 0) || (l.atom == "ahead" && l.c >= 0))) {
+				if omin, _, ok := offsetOf(p, v, lo, hi); !ok || omin < 0 {
 					s.pinned = false
 				}
 			}
